@@ -88,12 +88,20 @@ BigUnit ==
 NameUnit(n) ==
   LET t == ("type" :> <<"object">>) @@ ("properties" :> <<[k |-> "text", s |-> Str_],
                  [k |-> "charset", s |-> ("type" :> <<"string">>) @@ ("default" :> SA)]>>) @@ ("required" :> <<"text">>)
+      \* next to it ANOTHER struct with declared properties and typed additional properties: its generated methods use
+      \* the local names (Plain, raw, ...) too
+      h == ("type" :> <<"object">>) @@ ("properties" :> <<[k |-> "from", s |-> Str_], [k |-> "n", s |-> [type |-> <<"integer">>]]>>)
+           @@ ("additionalProperties" :> [k |-> "s", s |-> [type |-> <<"integer">>]])
+      xdoc == JObj(<<KV("text", SA)>>)
   IN [prop |-> "C02", fam |-> "names", par |-> n,
-      schema |-> ("type" :> <<"object">>) @@ ("properties" :> <<[k |-> "x", s |-> [ref |-> [k |-> "defs", n |-> n]]]>>)
+      schema |-> ("type" :> <<"object">>) @@ ("properties" :> <<[k |-> "h", s |-> h], [k |-> "x", s |-> [ref |-> [k |-> "defs", n |-> n]]]>>)
                  @@ ("required" :> <<"x">>),
       defs |-> <<[k |-> n, s |-> t]>>,
       docs |-> << JObj(<<KV("x", JObj(<<KV("text", SA)>>))>>), JObj(<<KV("x", JObj(<<KV("text", SA), KV("charset", JStr(<<"b">>))>>))>>),
-                  JObj(<<KV("x", JObj(<<>>))>>) >>,
+                  JObj(<<KV("x", JObj(<<>>))>>),
+                  JObj(<<KV("h", JObj(<<KV("from", SA), KV("n", JNum(4))>>)), KV("x", xdoc)>>),
+                  JObj(<<KV("h", JObj(<<KV("extra", JNum(8)), KV("from", SA), KV("n", JNum(4))>>)), KV("x", xdoc)>>),
+                  JObj(<<KV("h", JObj(<<KV("extra", JNum(8))>>)), KV("x", xdoc)>>) >>,
       nobuild |-> <<>>]
 
 Pars(f) == CASE f = "names" -> {"Plain", "plain", "Raw", "Value", "J"} [] f = "addl" -> AddlKinds [] f = "fmt" -> {p[1] \o "/" \o p[2] : p \in FmtPars} [] f = "big" -> {"-"}
